@@ -78,6 +78,7 @@ def _account(acc, pair, mode):
     answered = set()
     for d in (pair.c, pair.s):
         for ev in d.trace:
+            acc.count("trace-events")
             if ev.get("op") in ("drain", "receive"):
                 continue
             if ev["outcome"] != "ok":
